@@ -529,10 +529,87 @@ def handleSetup (args : List String) : Option String :=
       some ("|".intercalate r.2 |>.replace " " "_")
   | _ => none
 
+/-! ### an exception other than `ValueError` inside the minimiser (round 6d)
+
+Nothing in `optimize_clamp` / `optimize_iteration` / `optimize` catches it: it leaves `optimize()` before `backport`.
+Raised by the clamp function in the `m`-th evaluation of the `s`-th `optimize_clamp` call of iteration `it`
+(`clamp.update_params(params)` has stored the parameters, `self.function(params)` raises, `grid.update` is not reached):
+the grid is where the evaluations before left it, the clamp holds the parameters it could not apply. -/
+
+structure AbortRes (P Prm : Type) where
+  /-- the state the evaluations before the raising one left (grid points and the parameters that were applied) -/
+  st : St P Prm
+  /-- the clamp whose function raised and the parameters it had been handed -/
+  pending : Option (Nat × Prm)
+  /-- the abort point was reached (otherwise the run is an ordinary one and this result is not used) -/
+  reached : Bool
+
+/-- up to the raising evaluation -/
+def optimizeAbortPre [LE Q] [DecidableLE Q] [LT S] [DecidableLT S] (cfg : Cfg P Prm) (o : Oracles P Q)
+    (conv : List (Q × Q) → Bool) (sched : Nat → IterSched Prm S) (st : St P Prm) (it s m : Nat) : AbortRes P Prm :=
+  -- `it` complete iterations
+  let a := optimize cfg o conv it sched st
+  if a.raised.isSome || a.hist.length != it then { st := a.st, pending := none, reached := false } else
+  -- iteration `it`: all probes, the first `s` clamps of the sorted order
+  match probeAll cfg o (sched it) cfg.clampIdx.zipIdx a.st with
+  | (stb, _, some _) => { st := stb, pending := none, reached := false }
+  | (stb, keys, none) =>
+      let order := (sortDesc keys).map (·.1)
+      let c := solveAll cfg o (sched it) (order.take s) 0 stb
+      match c.raised, order[s]? with
+      | none, some j =>
+          match cfg.clampIdx[j]?, (((sched it).solve s j).1)[m]? with
+          | some idx, some e =>
+              let d := runEvals cfg o j idx c.st ((((sched it).solve s j).1).take m)
+              { st := d.1, pending := some (j, e), reached := d.2 }
+          | _, _ => { st := c.st, pending := none, reached := false }
+      | _, _ => { st := c.st, pending := none, reached := false }
+
+/-- the state in which the exception leaves the optimiser: the clamp holds the parameters it could not apply -/
+def optimizeAbort [LE Q] [DecidableLE Q] [LT S] [DecidableLT S] (cfg : Cfg P Prm) (o : Oracles P Q)
+    (conv : List (Q × Q) → Bool) (sched : Nat → IterSched Prm S) (st : St P Prm) (it s m : Nat) : St P Prm × Bool :=
+  let r := optimizeAbortPre cfg o conv sched st it s m
+  ({ pts := r.st.pts, prm := match r.pending with
+      | some (j, e) => r.st.prm.set j e
+      | none => r.st.prm }, r.reached)
+
+/-- the mesh vertices / sketch points after a call: `backport` only runs when nothing propagated -/
+def afterCall (verts : List P) (final : List P) (propagated : Bool) : List P :=
+  if propagated then verts else backportMesh verts final
+
+/-- `c13.abort pts clamps links pos lnk G J tol sched it:s:m` → `reached=<0|1> final=[…] prm=[…] back=[…]` -/
+def handleAbort (args : List String) : Option String :=
+  match args with
+  | [pts, clamps, links, pos, lnk, g, jt, tol, sched, at_] => do
+      let pts ← parseNatList? pts
+      let clamps ← parsePairs? clamps
+      let links ← parseTriples? links
+      let pos ← parseTriples? pos
+      let lnk ← parseTriples? lnk
+      let g ← parseG? g
+      let jt ← parseJ? jt
+      let tol ← parseRat? tol
+      let (it, s, m) ← match at_.splitOn ":" with
+        | [a, b, c] => do some ((← parseNat? a), (← parseNat? b), (← parseNat? c))
+        | _ => none
+      let iters ← (if sched = "-" then some [] else (sched.splitOn "|").mapM parseIter?)
+      let t : Tables :=
+        { pos := pos.foldl (fun m (a, b, c) => m.insert (a, b) c) (Std.HashMap.emptyWithCapacity 64),
+          lnk := lnk.foldl (fun m (a, b, c) => m.insert (a, b) c) (Std.HashMap.emptyWithCapacity 64),
+          gq := g, jq := jt }
+      let cfg := t.cfg (clamps.map (·.1)) (links.map (fun (a, b, c) => ⟨a, b, c⟩))
+      let st0 : St Nat Nat := { pts := pts, prm := clamps.map (·.2) }
+      let empty : IterSched Nat Rat := { probe := fun _ => ([], 0), solve := fun _ _ => ([], false) }
+      let r := optimizeAbort cfg t.oracles (convQV tol) (fun k => iters.getD k empty) st0 it s m
+      some (s!"reached={if r.2 then 1 else 0} final={showNatList r.1.pts} prm={showNatList r.1.prm} "
+        ++ s!"back={showNatList (afterCall pts r.1.pts true)}")
+  | _ => none
+
 def handle (op : String) (args : List String) : Option String :=
   match op with
   | "c13.opt" => handleOpt args
   | "c13.setup" => handleSetup args
+  | "c13.abort" => handleAbort args
   | "c13.driver" => handleDriver args
   | "c13.reporter" => handleReporter args
   | _ => none
